@@ -30,9 +30,9 @@ Theorem C05_integrity_lenient_parse_panics : exists s v, integrity_parse_lenient
 Proof. exact lenient_parse_panics. Qed.
 Print Assumptions C05_integrity_lenient_parse_panics.
 
-(* DID strings.  CoreDID::parse and IotaDID::parse are total on EVERY byte string (the guard of fix 5943363 excludes the only
-   overshoot of the third-party offsets); DIDUrl::parse is total on every byte string without a percent sign, i.e. outside the
-   known class K_pct, inside which the third-party parser's offsets leave the text (C10_url_pct_panics_refuted). *)
+(* DID strings.  CoreDID::parse (the repository's own splitter since fix 9f8c9e7), IotaDID::parse and DIDUrl::parse (own splitter since
+   fix 6c07746) are total on EVERY byte string, and DIDUrl::join is total for EVERY receiver and segment: no text reaches the third-party
+   parser's percent branch any more except a join SEGMENT, whose offsets provably stay inside it (C10_url_pct_panics_refuted is the former route). *)
 Theorem C05_core_did_parse_never_panics : forall s, core_did_parse s <> Panic.
 Proof. exact core_did_parse_total. Qed.
 Print Assumptions C05_core_did_parse_never_panics.
@@ -42,6 +42,9 @@ Print Assumptions C05_iota_did_parse_never_panics.
 Theorem C05_did_url_parse_never_panics : forall s, did_url_split_parse s <> Panic.
 Proof. exact did_url_split_total. Qed.
 Print Assumptions C05_did_url_parse_never_panics.
+Theorem C05_did_url_join_never_panics : forall u seg, did_url_join u seg <> Panic.
+Proof. exact join_total. Qed.
+Print Assumptions C05_did_url_join_never_panics.
 
 (* MethodDigest::unpack (bounds-checked slicing of a packed format): never panics; pack / unpack round trip; only packed digests are accepted;
    without the length test the indexing panics *)
